@@ -26,6 +26,8 @@ type Workload struct {
 	Ops     []Op `json:"ops"`
 	// Retry: a StoreLogs that returns an error is retried once with the same entries (as raft would).
 	Retry bool `json:"retry,omitempty"`
+	// RetryReopen: before the retry the WAL is closed and opened again (process restart).
+	RetryReopen bool `json:"retryReopen,omitempty"`
 }
 
 // Runner executes a workload step by step; Mark is called around every API call.
@@ -93,6 +95,12 @@ func (r *Runner) Run(wl Workload) error {
 			if err := r.call(step, "StoreLogs", func() error { return r.W.StoreLogs(logs) }); err != nil {
 				if !wl.Retry {
 					return fmt.Errorf("step %d StoreLogs: %w", step, err)
+				}
+				if wl.RetryReopen {
+					_ = r.call(step, "Close", func() error { return r.W.Close() })
+					if err := r.Open(step); err != nil {
+						return fmt.Errorf("step %d Open before retry: %w", step, err)
+					}
 				}
 				if err2 := r.call(step, "StoreLogs", func() error { return r.W.StoreLogs(logs) }); err2 != nil {
 					return fmt.Errorf("step %d StoreLogs failed (%v) and its retry too: %w", step, err, err2)
